@@ -276,12 +276,15 @@ class Interp:
                     elif dn == "abstractmethod":
                         kind = "abstract" if kind == "normal" else kind
                 f = FuncVal(st, m, cls=c, kind=kind)
+                key = st.name
+                if key.startswith("__") and not key.endswith("__"):
+                    key = f"_{node.name.lstrip('_')}{key}"      # private name mangling
                 if prop == "get":
-                    c.attrs[st.name] = PropertyVal(f)
+                    c.attrs[key] = PropertyVal(f)
                 elif prop == "set":
-                    c.attrs[st.name].setter = f
+                    c.attrs[key].setter = f
                 else:
-                    c.attrs[st.name] = f
+                    c.attrs[key] = f
             elif isinstance(st, ast.Assign) and len(st.targets) == 1 and isinstance(st.targets[0], ast.Name):
                 try:
                     c.attrs[st.targets[0].id] = self.eval_in_module(m, st.value)
